@@ -1273,6 +1273,18 @@ def monitor(case, tmp):
         op = h["op"]
         if "skip" in o:
             continue
+        if "err" in o and op == "sib":
+            k = h["i"]
+            if k not in sibref:
+                try:
+                    sibref[k] = reference(case, tmp, k)[0]
+                except BaseException as e:
+                    if not trappable(e):
+                        raise
+                    sibref[k] = None
+            if sibref[k] is None:
+                tags.append("sib-ref-raises:" + o["err"])       # that member cannot be read at all: outside the quantifier
+                continue
         if "err" in o:
             if op in DERIVE and derive_always_fails(case, i, o["err"], tmp):
                 tags.append("unsupported:%s:%s" % (op, o["err"]))     # e.g. an environment that can never be pickled: not a matter of history
@@ -1641,8 +1653,8 @@ def compare_model(case, outs, model, I):
 class C04(Property):
     id = "C04"
     prop_modules = ["CobaVerif.Props.C04"]
-    quick_n = 1000
-    thorough_n = 15000
+    quick_n = 700
+    thorough_n = 8000
     search_n = 1500
     case_timeout = 60
     workers = 8
@@ -1803,6 +1815,25 @@ class C04(Property):
             for holder in ({"m": "cache"}, {"m": "materialize"}):
                 for mut in mutators:
                     cs.append({"src": src, "chain": pre + [holder, mut], "hist": [full, full, par]})
+        # a collection of different environments: every shortcut must give each member its own pipes (cache/chunk/materialize/...)
+        lin2 = dict(lin, n=6, seed=5)
+        for chain in ([{"m": "cache"}], [{"m": "chunk", "a": [True]}], [{"m": "materialize"}], [{"m": "shuffle", "a": [3]}, {"m": "cache"}],
+                      [{"m": "sparse", "a": [True, False]}, {"m": "dense", "a": [6, "lookup"]}], [logged, {"m": "shuffle", "a": [4]}], [{"m": "noise", "k": {"context": {"t": [0, 1]}, "seed": 3}}]):
+            for member in (0, 1):
+                other = 1 - member
+                cs.append({"src": lin, "sibs": [lin2], "member": member, "chain": chain,
+                           "hist": [{"op": "sib", "on": 0, "i": other}, full, {"op": "sib", "on": 0, "i": other}, part(2), full, par]})
+        cs.append({"src": lin, "sibs": [lin2, dict(lin, n=4, seed=9)], "member": 2, "chain": [],
+                   "hist": [{"op": "cache", "on": 0}, {"op": "sib", "on": 1, "i": 0}, {"op": "full", "on": 1}, {"op": "sib", "on": 1, "i": 1}, {"op": "full", "on": 1},
+                            {"op": "save", "on": 1}, {"op": "sib", "on": 2, "i": 0}, {"op": "full", "on": 2}]})
+        # filters that memoise per instance: more (interaction, action) evaluations per read than a bounded memo would hold
+        big = dict(lin, n=100, n_actions=4)
+        for chain in ([{"m": "grounded", "a": [3, 2, 4, 2, 1]}, {"m": "materialize"}], [{"m": "grounded", "a": [3, 2, 4, 2, 1]}, {"m": "cache"}],
+                      [{"m": "materialize"}, {"m": "grounded", "a": [5, 3, 6, 3, 2]}]):
+            cs.append({"src": big, "chain": chain, "hist": [full, full, part(99), full]})
+        # synthetic constructors with a missing feature group, reward features given by the caller or left to the default
+        for nc, nf, rf in ((0, 2, None), (0, 2, ["a", "xa"]), (2, 0, ["x", "xa"]), (2, 0, None), (0, 0, None), (2, 2, None), (0, 3, ["xa", "xxa", "a"])):
+            cs.append({"src": dict(lin, n_ctx=nc, n_act=nf, rf=rf), "chain": [], "hist": [par, part(1), par, full, par, full]})
         # empty environments (EmptyCheck), densify lookup
         cs.append({"src": dict(lin, n=0), "chain": [], "hist": [full, full, par, {"op": "materialize", "on": 0}, {"op": "full", "on": 1}]})
         cs.append({"src": lin, "chain": [{"m": "take", "a": [0, False]}], "hist": [full, part(1), full]})
